@@ -43,9 +43,10 @@ def op_configs(tier):
     add("hold-out fraction outside [0,1]", op="badfraction", fam="A", R=3)
     add("combination filter D", op="combofilter", fam="D", R=7)
     add("combination filter A", op="combofilter", fam="A", R=7)
-    if not q:
+    if True:
         from .retro_common import family
-        for k in range(N_GENERATED):
+        # quick: the two largest small structures (ten rows on six plates, repeated sizes); thorough: 64 structures
+        for k in ((32, 33) if q else range(N_GENERATED)):
             fam = "G%d" % k
             R = len(family(fam))
             for op, kw in (("perm", dict(force=None)), ("segr", dict(pmax=3)), ("mergemin", dict(pmax=5)), ("topbottom", {}),
@@ -53,9 +54,9 @@ def op_configs(tier):
                            ("rholdout", {}), ("cover", {}), ("combofilter", {})):
                 # operations whose generator draws are permutations of all rows are factorial in the row count
                 if op in ("perm", "rholdout", "cover", "segr"):
-                    if k >= 24:
+                    if k >= 24 and not q:
                         continue
-                    Rop = min(R, 7 if k < 4 else 6)
+                    Rop = min(R, 5 if q else 7 if k < 4 else 6)
                 elif op in ("holdout", "ensemble"):
                     Rop = min(R, 8)
                 else:
